@@ -120,6 +120,7 @@ def BOUNDED(tier, seed):
                             def impute(self, feature_subset, x_i, n_samples=1):
                                 r = super().impute(feature_subset, x_i, n_samples)
                                 assert list(feature_subset) == [feature_subset[0]] and len(r) == n_samples
+                                assert n_samples == (3 if cur['t'] == 2 else n_inner), 'number of inner samples requested'
                                 recorded[(cur['t'], feature_subset[0])] = r
                                 return r
                         ex = IncrementalPFI(model, loss, list(names), storage=st, imputer=Rec(model, strategy, st),
@@ -131,7 +132,8 @@ def BOUNDED(tier, seed):
                         try:
                             for t, (x, y) in enumerate(stream):
                                 cur['t'] = t
-                                ex.explain_one(x, y)
+                                # a per-call override of the number of inner samples on some steps
+                                ex.explain_one(x, y, n_inner_samples=(3 if t == 2 else None))
                                 got.append((dict(ex.importance_values), dict(ex.variances)))
                         except Exception as e:   # noqa
                             fails.append({'key': 'raised', 'summary': f'IncrementalPFI raised {e!r} (names={names})'})
